@@ -144,6 +144,19 @@ void vg_src_close(void *handle)
 /* stream types the harness uses: with and without the optional callbacks */
 const LHAInputStreamType vg_type_cb = { vg_src_read, vg_src_skip, vg_src_close };
 const LHAInputStreamType vg_type_rd = { vg_src_read, NULL, NULL };
+/* Which type the stream under test has: vg_tk = 1 callbacks with skip+close, 2 callbacks with read only,
+   3 owned FILE, 4 unowned FILE; vg_tp / vg_hp = the matching type object and handle (set together in
+   vg_havoc; DFCC does not take disjunctions of pointer equalities in requires clauses, so contracts say
+   `type == vg_tp` and the harness picks vg_tp).  VG_TK_LO..VG_TK_HI is the range a group covers. */
+int vg_tk;
+const LHAInputStreamType *vg_tp;
+void *vg_hp;
+#ifndef VG_TK_LO
+#define VG_TK_LO 1
+#endif
+#ifndef VG_TK_HI
+#define VG_TK_HI 2
+#endif
 
 /* ---- C library FILE model (the FILE source is the same ghost source vg_cur / vg_src) ---- */
 /* ASSUME: errno is an int lvalue that library functions may set on failure. */
@@ -249,10 +262,6 @@ void *vg_memmove(void *dst, const void *src, size_t n)
 /* the two FILE stream types are defined further down in the file; contracts above them name them */
 static const LHAInputStreamType file_source_owned;
 static const LHAInputStreamType file_source_unowned;
-#ifndef VG_FREE_T
-#define VG_FREE_T 1
-#endif
-
 #include "lib/lha_input_stream.c"
 
 static void vg_havoc(void)
@@ -264,6 +273,10 @@ static void vg_havoc(void)
 	vg_closed = nondet_uint();
 	vg_open = nondet_uint();
 	vg_feof = nondet_bool();
+	vg_tk = nondet_int();
+	__CPROVER_assume(vg_tk >= VG_TK_LO && vg_tk <= VG_TK_HI);
+	vg_tp = vg_tk == 1 ? &vg_type_cb : vg_tk == 2 ? &vg_type_rd : vg_tk == 3 ? &file_source_owned : &file_source_unowned;
+	vg_hp = vg_tk <= 2 ? VG_HANDLE : (void *) VG_FILE;
 	vg_S = nondet_size_t(); vg_L0 = nondet_size_t(); vg_mark_pos = nondet_size_t();
 	vg_hit_skip = nondet_int(); vg_mark = nondet_bool();
 }
@@ -271,7 +284,7 @@ static void vg_havoc(void)
 void h_file_header_match(void) { uint8_t *b; vg_havoc(); file_header_match(b); VG_CANARY("file_header_match"); }
 void h_skip_sfx(void) { LHAInputStream *s; vg_havoc(); skip_sfx(s); VG_CANARY("skip_sfx"); }
 void h_empty_leadin(void) { LHAInputStream *s; size_t n; vg_havoc(); empty_leadin(s, n); VG_CANARY("empty_leadin"); }
-void h_read(void) { LHAInputStream *s; void *b; size_t n; vg_havoc(); lha_input_stream_read(s, b, n); VG_CANARY("lha_input_stream_read"); }
+void h_read(void) { LHAInputStream *s; void *b; size_t n; vg_havoc(); __CPROVER_assert(vg_type_cb.read == vg_src_read && vg_type_rd.read == vg_src_read, "dbg types initialised"); __CPROVER_assert(vg_tp->read == vg_src_read, "dbg tp"); lha_input_stream_read(s, b, n); VG_CANARY("lha_input_stream_read"); }
 void h_skip(void) { LHAInputStream *s; size_t n; vg_havoc(); lha_input_stream_skip(s, n); VG_CANARY("lha_input_stream_skip"); }
 void h_new(void) { const LHAInputStreamType *t; void *h; vg_havoc(); lha_input_stream_new(t, h); VG_CANARY("lha_input_stream_new"); }
 void h_free(void) { LHAInputStream *s; vg_havoc(); lha_input_stream_free(s); VG_CANARY("lha_input_stream_free"); }
